@@ -47,6 +47,29 @@ class Iter:
 OPAQUE = ("elem",)
 
 
+_INT_NAMES = ("u8", "u16", "u32", "u64", "u128", "usize", "i8", "i16", "i32", "i64", "i128", "isize")
+
+
+def inherits_overflow_checks(fn):
+    """(operation, integer type) when the callee is a std arithmetic function marked #[rustc_inherit_overflow_checks] — the operator
+    traits on integers called as functions, Iterator::sum / product over integers, integer pow: it panics on overflow exactly when
+    the *calling* crate is built with overflow checks, i.e. in a dev profile only.  None otherwise."""
+    d = fn.get("def") or ""
+    targs = [str(x).lstrip("&").strip() for x in (fn.get("args") or [])]
+    ops = {"core::ops::Add::add": "add", "core::ops::Sub::sub": "sub", "core::ops::Mul::mul": "mul", "core::ops::AddAssign::add_assign": "add",
+           "core::ops::SubAssign::sub_assign": "sub", "core::ops::MulAssign::mul_assign": "mul"}
+    if d in ops and targs and targs[0] in _INT_NAMES:
+        return ops[d], targs[0]
+    if d in ("core::iter::Iterator::sum", "core::iter::Iterator::product"):
+        ty = next((x for x in targs if x in _INT_NAMES), None)
+        if ty:
+            return d.split("::")[-1], ty
+    m = re.match(r"^core::num::<impl (\w+)>::pow$", d)
+    if m and m.group(1) in _INT_NAMES:
+        return "pow", m.group(1)
+    return None
+
+
 class RangeDomain:
     sound_loops = True
 
@@ -54,6 +77,7 @@ class RangeDomain:
         self.F = F
         self.sites = {}       # (fn path, bb) -> {'kind', 'proved': n, 'unknown': n, 'fails': n, 'detail': ...}
         self.notes = []
+        self.inherit = {}     # (fn path, bb) of a call into std arithmetic that inherits the caller's overflow checks -> status
         self.panics = {}      # (fn path, bb) of a diverging call the abstract execution reached -> {root}
         self.completed = set()   # roots whose abstract execution ran to the end
 
@@ -63,6 +87,48 @@ class RangeDomain:
         if watch and adt in watch:
             self.constructed.setdefault(adt, []).append(list(ops))
         return NotImplemented
+
+    def _inherit_call(self, ex, fk, args, term, fr, ih):
+        """a std arithmetic function compiled with the *caller's* overflow checks (`<u64 as Add>::add`, `Iterator::sum`, `pow`):
+        bounded operands are proved not to overflow, anything else is recorded as an undecided dev-only panic site"""
+        op, ty = ih
+        rng = ty_range(ty)
+        bb = next((i for i, blk in enumerate(fr.body.blocks) if blk["term"] is term), None)
+        a = [deref_value(ex, x) for x in args]
+
+        def iv(v):
+            if isinstance(v, bool):
+                return (int(v), int(v))
+            if isinstance(v, int):
+                return (v, v)
+            if isinstance(v, Rng):
+                return (v.lo, v.hi)
+            return None
+        res = None
+        if rng:
+            if op in ("add", "sub", "mul") and len(a) == 2 and iv(a[0]) and iv(a[1]):
+                (l1, h1), (l2, h2) = iv(a[0]), iv(a[1])
+                cands = {"add": (l1 + l2, h1 + h2), "sub": (l1 - h2, h1 - l2), "mul": (min(l1 * l2, l1 * h2, h1 * l2, h1 * h2), max(l1 * l2, l1 * h2, h1 * l2, h1 * h2))}[op]
+                res = cands
+            elif op in ("sum", "product") and len(a) == 1 and isinstance(a[0], Iter) and all(iv(x) for x in a[0].items[a[0].pos:]):
+                items = [iv(x) for x in a[0].items[a[0].pos:]]
+                if op == "sum":
+                    res = (sum(x[0] for x in items), sum(x[1] for x in items))
+                else:
+                    lo = hi = 1
+                    for x in items:
+                        lo, hi = lo * x[0], hi * x[1]
+                    res = (lo, hi) if all(x[0] >= 0 for x in items) else None
+            elif op == "pow" and len(a) == 2 and iv(a[0]) and iv(a[1]) and iv(a[0])[0] >= 0 and iv(a[1])[1] <= 256:
+                res = (iv(a[0])[0] ** iv(a[1])[0], iv(a[0])[1] ** iv(a[1])[1])
+        ok = res is not None and rng is not None and rng[0] <= res[0] and res[1] <= rng[1]
+        st = self.inherit.setdefault((fr.body.path, bb), {"proved": 0, "unknown": 0, "detail": None})
+        if ok:
+            st["proved"] += 1
+            return self.mk(*res)
+        st["unknown"] += 1
+        st["detail"] = "%s on %s" % (op, [repr(x)[:30] for x in a])
+        return Rng(*rng) if rng else TOP
 
     def on_write(self, ex, fr, pl, val):
         """observes stores into the watched private integer fields (field-invariant inference)"""
@@ -291,6 +357,11 @@ class RangeDomain:
     def call(self, ex, fk, args, term, fr):
         n = fk.name
         d = fk.d
+        ih = inherits_overflow_checks(term.get("fn") or {})
+        if ih and fr is not None:
+            r = self._inherit_call(ex, fk, args, term, fr, ih)
+            if r is not NotImplemented:
+                return r
         if fr is not None and (term.get("target") is None or d.startswith(PANIC_DEFS)):
             for i, blk in enumerate(fr.body.blocks):
                 if blk["term"] is term:
@@ -979,6 +1050,34 @@ def rule_profile_diff(prop, ctx_repo_dev, repo_rel, ls_factory):
     for p in ASSUMED_DEBUG_ASSERTS:
         if not any(s[1] == p for s in dbg):
             R.note("stale assumption: no debug_assert! in %s any more" % p)
+    # ---- std arithmetic that inherits this crate's overflow checks (no assertion of its own in our MIR)
+    ninh = 0
+    for p, b in F.bodies.items():
+        if b.rec["kind"] not in ("Fn", "AssocFn", "Closure"):
+            continue
+        for bb in sorted(b.reachable()):
+            t = b.blocks[bb]["term"]
+            if t["k"] != "call" or not t.get("fn"):
+                continue
+            ih = inherits_overflow_checks(t["fn"])
+            if not ih:
+                continue
+            ninh += 1
+            R.instance()
+            root = p.split("::{closure")[0] if b.rec["kind"] == "Closure" and p.split("::{closure")[0] in F.bodies else p
+            dom = RangeDomain(F)
+            st = None
+            try:
+                from .roles import int_helper_paths
+                run_top(F, dom, F.bodies[root], lambda d_: d_ in int_helper_paths(F))
+                st = dom.inherit.get((p, bb)) if root in dom.completed else None
+            except Exception:
+                st = None
+            ok = bool(st) and st["proved"] > 0 and st["unknown"] == 0
+            R.check(ok, "%s:inherited-overflow:%s#%s" % (prop, p, ih[0]), "%s calls %s on %s, which is compiled with the caller's overflow checks: it panics on overflow in a dev build and wraps in "
+                    "release, and the operands are not bounded by the interval analysis (%s)" % (p, (t["fn"].get("def") or ""), ih[1], (st or {}).get("detail")), loc_of(b, bb), p,
+                    sample={"site": loc_of(b, bb), "fn": p, "op": ih[0], "bounded": True} if ok else None)
+    R.note("%d calls into overflow-check-inheriting std arithmetic" % ninh)
     return R.finish()
 
 
